@@ -58,7 +58,8 @@ def values_shard(serializer: str, kind: str, seed: int, examples: int, known: li
             cache[k] = (app, app.task(tasks.ident))
         return cache[k]
 
-    outcome = st.one_of(st.tuples(st.just("value"), V.values_for(serializer, 8)), st.tuples(st.just("exception"), exc_strategy()))
+    outcome = st.one_of(st.tuples(st.just("value"), V.values_for(serializer, 8)), st.tuples(st.just("exception"), exc_strategy()),
+                        st.tuples(st.just("unstorable"), st.sampled_from(["exception", "result"])))
 
     @hypothesis.seed(seed)
     @make_settings(examples)
@@ -96,6 +97,34 @@ def values_shard(serializer: str, kind: str, seed: int, examples: int, known: li
         app.orchestrator.set_invocation_status(iid, S.RUNNING, A)
         must_refuse("RUNNING")
         ext = False
+        if what == "unstorable":
+            # an outcome the configured serializer cannot encode: storing it fails - whatever happens then,
+            # a final status must never be published without the matching result / exception
+            bad: Any = (lambda: 0) if serializer == "PickleSerializer" else b"\x00raw-bytes"
+            if serializer == "JsonPickleSerializer":
+                bad = None
+            raised = None
+            try:
+                if payload == "exception":
+                    app.orchestrator.set_invocation_exception(inv, ValueError("unstorable", bad), A)
+                else:
+                    app.orchestrator.set_invocation_result(inv, {"x": bad}, A)
+            except Exception as exc:  # noqa: BLE001
+                raised = exc
+            c = client()
+            st_ = c.status
+            if st_.is_final():
+                try:
+                    got = c.get_final_result()
+                    ok = st_ == S.SUCCESS
+                except ValueError as exc:
+                    ok = st_ == S.FAILED and exc.args[:1] == ("unstorable",)
+                except Exception:  # noqa: BLE001
+                    ok = False
+                if not ok:
+                    rep.fail(f"values:{kind}:final-without-outcome", f"storing an un-encodable {payload} raised {type(raised).__name__ if raised else None}; the invocation is {st_.name} but its {payload} cannot be read back")
+            part.case(key=(serializer, kind, "unstorable", payload, n % 7), nontrivial=True, classes=[serializer, f"backend_{kind}", "unstorable_" + payload, "store_raised" if raised else "store_ok"], sample=rep.holder["case"])
+            return
         if what == "value":
             app.orchestrator.set_invocation_result(inv, payload, A)
             ext = app.client_data_store.is_reference(app.state_backend._get_result(iid)) if hasattr(app.state_backend, "_get_result") else False
